@@ -377,7 +377,9 @@ def main(argv=None):
             out_paths.append((sig, path, detail))
 
         wall = time.time() - t0
-        exhaustive = bool(getattr(prop, "EXHAUSTIVE", lambda t: False)(args.tier))
+        # a bounded enumeration only counts as complete if no shard ran out of budget
+        exhaustive = bool(getattr(prop, "EXHAUSTIVE", lambda t: False)(args.tier)) \
+            and not total.notes.get("budget_exhausted")
         cov = dict(
             evaluations=total.evaluations,
             distinct_nontrivial=len(total.nontrivial),
